@@ -72,7 +72,7 @@ def mirrored(spec_fn, mutates_self=False):
     return f
 
 
-def add_lsb0(qualname, mutates_self=False, custom=None, shape_filter=None, extra_props=()):
+def add_lsb0(qualname, mutates_self=False, custom=None, shape_filter=None, extra_props=(), stable=True):
     """add lsb0 shapes (options.lsb0 = True) to an existing contract; its spec becomes mode-aware"""
     c = REGISTRY[qualname]
     orig = c.spec
@@ -89,7 +89,8 @@ def add_lsb0(qualname, mutates_self=False, custom=None, shape_filter=None, extra
             continue
         o = dict(sh.opts)
         o['lsb0'] = True
-        new.append(Shape(sh.name + '/lsb0', sh.build, sh.real, opts=o, loop_bound=sh.loop_bound, props={'C12'} | set(extra_props)))
+        new.append(Shape(sh.name + '/lsb0', sh.build, sh.real, opts=o, loop_bound=sh.loop_bound, props={'C12'} | set(extra_props), gen=sh.gen,
+                         stable=stable and sh.stable))
     c.shapes.extend(new)
 
 
@@ -148,8 +149,9 @@ def _rot_lsb0(right):
     return f
 
 
-add_lsb0('bitarray_.BitArray.ror', custom=_rot_lsb0(True))
-add_lsb0('bitarray_.BitArray.rol', custom=_rot_lsb0(False))
+# (the solver needs > 60 s for the ranged cases of these two: load-sensitive, bounded stand-in always runs)
+add_lsb0('bitarray_.BitArray.ror', custom=_rot_lsb0(True), stable=False)
+add_lsb0('bitarray_.BitArray.rol', custom=_rot_lsb0(False), stable=False)
 
 
 # reads: the value is the interpretation, in stored order, of the bits at lsb0 positions [pos, pos+L)
